@@ -633,6 +633,10 @@ func (r *Resolver) ResolveGraphQLDeferResponse(ctx *Context, response *GraphQLDe
 					resolvable: resolvable,
 					writer:     writer,
 					arena:      resolveArena.Arena,
+					// pre-fetch decisions are seeded once, before the initial fetch; the deferred
+					// loaders only read them (denyReason, in their prepare phase under db's
+					// lock) to hold back fully denied fetches, as the initial loader does
+					authorization: authorization,
 				}
 				if err := r.resolveDeferTree(dc, ctx, liveTree, &outstanding); err != nil {
 					return nil, err
@@ -656,6 +660,8 @@ type deferContext struct {
 	// arena backs every defer group's loader. It is shared across groups; every
 	// allocation from it is serialised by db's lock (see resolveDeferSingle).
 	arena arena.Arena
+	// authorization holds the request's pre-fetch field authorization decisions
+	authorization *FieldAuthorization
 }
 
 // resolveDeferSingle fetches and renders a single deferred fragment, announcing
@@ -676,7 +682,7 @@ func (r *Resolver) resolveDeferSingle(dc *deferContext, ctx *Context, group *Def
 	// the arena only in its prepare and merge phases, both of which hold
 	// dc.db.Lock(), and the off-lock network phase allocates nothing from it. The
 	// lock therefore serialises every arena allocation across all groups.
-	groupLoader := NewLoader(r.options, r.allowedErrorExtensionFields, r.allowedErrorFields, r.subgraphRequestSingleFlight, dc.arena, dc.db, nil)
+	groupLoader := NewLoader(r.options, r.allowedErrorExtensionFields, r.allowedErrorFields, r.subgraphRequestSingleFlight, dc.arena, dc.db, dc.authorization)
 	groupLoader.Init(ctx, dc.info) // fresh taintedObjs; errors=nil
 
 	if fetchErr := groupLoader.ResolveFetchNode(group.Fetches); fetchErr != nil {
